@@ -9,7 +9,7 @@ def reg(pid, text, note, technique, design_ref, category="exploration"):
 
 reg("C01",
     "Runtime monitor (INV/C01) over executions of the real StreamTokenizer: bounded-exhaustive small scope (all validity "
-    "strings up to L x all accepted tuples with max_length<=4 incl. init-phase variants) plus recipes and structured random "
+    "strings up to L x all accepted tuples with max_length<=4 incl. init-phase variants) plus recipes, structured random (max_length<=12), mid (13..256) and large (257..1000) "
     "long streams, across 9 frame types / validator kinds and 3 delivery modes. Index bookkeeping bugs live in small scopes, "
     "so an exhaustive core plus random depth is the right level; no claim beyond the executions observed.",
     "Trusts: CPython, the harness' instrumented DataSource, content-determined validators. Not covered: stateful validators, infinite streams.",
